@@ -264,6 +264,19 @@ impl RetryStream {
                 let http_result: HttpResult = response.into();
                 match http_result {
                     HttpResult::Ok(response) => {
+                        // A request that asked for a byte range must be answered with `206 Partial
+                        // Content`. A server that ignores the `Range` header answers `200` with the
+                        // whole file, which must not be appended to the bytes already delivered.
+                        if self.retry_state.next_byte > 0
+                            && response.status() != reqwest::StatusCode::PARTIAL_CONTENT
+                        {
+                            let message = format!(
+                                "server answered range request 'bytes={}-' with status {}",
+                                self.retry_state.next_byte,
+                                response.status()
+                            );
+                            return Some(self.poll_err(message));
+                        }
                         trace!("{:?} - returning from successful fetch", self.retry_state);
                         if let Some(ranges) = response.headers().get(ACCEPT_RANGES) {
                             if let Ok(val) = ranges.to_str() {
